@@ -99,6 +99,36 @@ Theorem c08_pred_mat_state :
 Proof. exact pred_mat_state. Qed.
 Print Assumptions c08_pred_mat_state.
 
+(* AddJitterOp forward (x + sigsq * Id): only the diagonal changes, by sigsq *)
+Theorem c08_jitter_diagonal_only :
+  forall (K : list (list R)) (s : R) i j,
+    (i < length K)%nat -> (i < length (nth i K []))%nat ->
+    entry (add_diag NumR K s) i j = if Nat.eqb j i then entry K i j + s else entry K i j.
+Proof. exact add_diag_entry. Qed.
+Print Assumptions c08_jitter_diagonal_only.
+
+(* the model's Cholesky factorisation (row by row, = repeated rank-one extension): for every
+   symmetric square A on which no pivot is non-positive ([chol_ok], i.e. potrf does not fail)
+   the result is lower triangular with non-zero diagonal and L L^T = A *)
+Theorem c08_cholesky_factor :
+  forall A : list (list R),
+    Square A -> Symmetric A -> chol_ok A [] ->
+    LowerTri (cholesky NumR A) /\ Square (cholesky NumR A) /\ gram NumR (cholesky NumR A) = A.
+Proof. exact cholesky_correct. Qed.
+Print Assumptions c08_cholesky_factor.
+
+(* cholesky_computations establishes the posterior-state invariant for A = K + sigsq I *)
+Theorem c08_cholesky_computations_state :
+  forall (K : list (list R)) (sigsq : R) (Ycols : list (list R)) (mvec : list R),
+    let A := add_diag NumR K sigsq in
+    Square A -> Symmetric A -> chol_ok A [] -> length mvec = length A ->
+    Forall (fun y => length y = length A) Ycols ->
+    StateOK (fst (cholesky_computations NumR K sigsq Ycols mvec)) A
+            (snd (cholesky_computations NumR K sigsq Ycols mvec))
+            (map (fun y => vsub NumR y mvec) Ycols).
+Proof. exact cholesky_computations_state. Qed.
+Print Assumptions c08_cholesky_computations_state.
+
 (* incremental update: the pair returned by cholesky_update is again a posterior state, for the
    system matrix extended by the new row/column [k_new ; d] and the targets extended by
    (y_new - m(x_new)); d = |lvec|^2 + max(kscal + noise - |lvec|^2, clamp2), which is
@@ -240,3 +270,31 @@ Proof.
   - apply (c08_mean_dense _ _ _ _ [[1; 2]] [7] HS 0%nat 0%nat [/3; /3]); simpl; try lia; try reflexivity.
     unfold mv. simpl. repeat f_equal; lra.
 Qed.
+
+(* non-vacuity of c08_cholesky_factor: A = [[4,2],[2,10]] is square, symmetric, no pivot fails *)
+Example c08_cholesky_example :
+  let A := [[4; 2]; [2; 10]] in Square A /\ Symmetric A /\ chol_ok A [].
+Proof.
+  cbv zeta. split; [repeat constructor|]. split.
+  - intros i j. unfold entry.
+    destruct i as [|[|i]]; destruct j as [|[|j]]; simpl; try reflexivity;
+      try (destruct j; reflexivity); try (destruct i; reflexivity).
+    destruct i; destruct j; reflexivity.
+  - simpl. unfold forward_subst. simpl. split; [lra|].
+    assert (E : Rmax (4 - 0) 0 = 4) by (rewrite Rmax_left; lra). rewrite E.
+    assert (H2 : sqrt 4 = 2) by (replace 4 with (2 * 2) by lra; apply sqrt_square; lra).
+    rewrite H2. split; [|exact I]. lra.
+Qed.
+
+(* The determinant identity assumed by c08_nlml_dense_partial, proved over MathComp matrices on
+   any commutative ring (so also the reals): for lower-triangular L, det (L L^T) = (prod L_ii)^2.
+   Linked to the list model only by shape (no transport lemma): that is the remaining gap of
+   the likelihood statement. Kept last: the MathComp imports change notations. *)
+Set Warnings "-notation-overridden,-ambiguous-paths".
+From mathcomp Require Import all_ssreflect all_algebra.
+From Verif Require Import proofs.GPLinDetProofs.
+Theorem c08_det_cholesky_mathcomp :
+  forall (F : comRingType) (n : nat) (L : 'M[F]_n),
+    is_trig_mx L -> (\det (L *m L^T) = (\prod_i L i i) ^+ 2)%R.
+Proof. exact det_LLT. Qed.
+Print Assumptions c08_det_cholesky_mathcomp.
